@@ -235,3 +235,51 @@ def rule_crash(ctx):
                  'the output is demanded only where the task is known to have one (session memo, or tested just before)' if ok
                  else 'an internal-invariant abort (`%s` on a missing output) is reachable for a task whose execution was aborted' % e.name, ctx.where(b, e.bb), props=P)
     R.floor('U2-P3', 'expect/unwrap on cached outputs', n, 3, props=P)
+
+
+def rule_stale_residue(ctx):
+    """C19 U2 (residue readers that can abort the build): the edges recorded by an execution that was
+    later aborted (P2: the reserved edge; P3: the reads / writes / requires made before the abort) stay in
+    the graph until their task is re-executed. Every validation query that can abort a later build must
+    either disregard edges whose source task has no cached output, or the build entry points must purge
+    such edges first. Where neither holds, a later session that no longer contains the violation can
+    abort again (demonstrated against the real code: findings/stale_residue_demo.rs)."""
+    R, F, roles = ctx.R, ctx.F, ctx.roles
+    P = ('C19',)
+    # (b) purge at build entry: an entry point must-calls, before anything that can execute, a store method other
+    #     than the per-execution reset that removes edges
+    removing = {b.id for b in F.bodies.values() if b.crate == 'pie' and not b.is_test_code() and b.impl_self and type_head(b.impl_self) == roles.store_adt
+                and any(c.qname in (DAG + 'remove_outgoing_edges_of_node', DAG + 'remove_edge') for x in F.with_closures(b) for c in x.calls.values())}
+    entries = [b for b in F.bodies.values() if b.crate == 'pie' and not b.is_test_code() and b.kind == 'AssocFn' and
+               any(F.callee_body(c) is not None and F.callee_body(c).name == 'build' and type_head(F.callee_body(c).impl_self or '') == 'pie::pie::Tracking' for c in b.calls.values())]
+    purged = bool(entries)
+    for b in entries:
+        inf = ctx.infeasible(b)
+        runs = [c for c in b.calls.values() if F.callee_body(c) is not None and reaches_exec(ctx, F.callee_body(c)) and not b.blocks[c.bb]['cleanup']]
+        purge_calls = {c.bb for c in b.calls.values() if F.callee_body(c) is not None and F.callee_body(c).id in removing}
+        if not runs or any(b.must_before(c.bb, ctx.both(inf, lambda n: n in purge_calls)) is not None for c in runs):
+            purged = False
+    # (a) per site: the abort is guarded by "the owner of the recorded edge has an output"
+    sites = []
+    for b in F.bodies.values():
+        if b.crate != 'pie' or b.is_test_code() or (b.impl_self and type_head(b.impl_self) == roles.store_adt):
+            continue
+        for c in b.calls.values():
+            q = roles.query_of_call(c)
+            if q is not None and (roles.is_writer_of(q) or roles.is_readers_of(q)):
+                kind = 'recorded-writer' if roles.is_writer_of(q) else 'recorded-readers'
+                sites.append((b, c, kind))
+            elif is_callee(ctx, c, roles.add_dep) and ctx.dep_variants(b, c.args[3]) == {'ReservedRequire'}:
+                sites.append((b, c, 'cycle-search'))
+    R.floor('U2-stale-residue', 'validation queries that can abort a build', len(sites), 4, props=P)
+    for b, c, kind in sites:
+        owner_checked = False
+        for g in b.guards.values():
+            for sc in g.subject_calls():
+                if is_callee(ctx, sc, roles.get_out) or (sc.name in ('is_some', 'is_none') and any(is_callee(ctx, x, roles.get_out) for x in ancestors(b, b.orig_operand(sc.args[0])).values())):
+                    owner_checked = True
+        ok = purged or owner_checked
+        R.ob('U2-stale-residue', '%s#%s' % (b.path, kind), ok,
+             'edges left by aborted executions cannot make this query abort a later build' if ok else
+             'the %s query consults edges recorded by executions that were later aborted (their task has no output and has not been re-executed yet); nothing purges them at build entry, '
+             'so a later session in which the violation no longer exists can abort again' % kind, ctx.where(b, c.bb), props=P)
